@@ -14,7 +14,14 @@ and prints every case with the entries / text it must produce.  Each list is ren
 document with several sections, as ONE configuration file with several init commands, and as a
 sequence of admin commands, loaded by the real code (readConfigFile -> toml.Decode ->
 cfg.InitTable; imperatives.Apply) on a real table, and every field of every resulting entry is read
-back and compared with TLC's record; the three syntaxes must agree."""
+back and compared with TLC's record; the three syntaxes must agree.
+
+Value class "explicit zero" (Config.tla section 2a): every numeric option of every entry kind (the ten
+destination options, the eight grafanaNet ones incl. errBackoffFactor, aggregation interval / wait,
+rewriter max) is also written as 0 -- alone, in pairs with every other option and inside larger random
+subsets and lists.  TLC's expectation is the entry with that field = 0 or "refused with an error"
+(flush, reconn, iobuf, spoolsyncperiod of a spooling destination, concurrency, orgId, interval), never
+the default; the driver records acceptance / refusal as an outcome and the syntaxes must agree on it."""
 import json, random
 from checks import conflib as L
 from vlib.core import Machinery
@@ -51,32 +58,38 @@ def generation_jobs(ctx, q):
                      lambda: L.gen_texts(ctx, alphabet, maxlen, **kw)))
     if q:
         # all singletons of every kind / route type; all pairs for one representative shape per kind
+        # (explicit zeros included: every numeric option = 0 alone and paired with every other option)
         cases("cases:pairs", B(MaxDests=2, MaxOpts=1, DeepKinds={"route", "gnet", "rewriter"},
-                               DeepTypes={"sendAllMatch"}, DeepDests=2, DeepOpts=2))
+                               DeepTypes={"sendAllMatch"}, DeepDests=2, DeepOpts=2, Zeros="all"))
         # larger subsets: only kinds with >= 7 options, so that every behaviour gets deep
-        cases("cases:random", B(Kinds={"route", "gnet", "agg"}, MaxDests=3, NVals=2, MaxOpts=99), simulate="num=4", depth=9)
+        # (zeros only where an entry results, so that the other fields of the entry are compared too)
+        cases("cases:random", B(Kinds={"route", "gnet", "agg"}, MaxDests=3, NVals=2, MaxOpts=99, Zeros="ok"),
+              simulate="num=4", depth=9)
         # every (option, position) pair: set early, left out later.  Booleans at every pair of positions of
         # lists of 2 and 3 (any representative type in the remaining position), the others in lists of two
         lists("lists:leak", B(Mode="leak", Kinds={"route", "gnet", "agg", "rewriter"}, RouteTypes={"sendAllMatch"},
                               MaxDests=1, MaxList=3, FullNames=bools))
         # seeded random lists of 1..3 entries, every kind, about 6 options per entry (1-3 destinations)
-        lists("lists:random", B(Mode="rlists", MaxDests=3, NVals=2, MaxList=3, RandK=6, RandOpts=6, RandN=10))
+        lists("lists:random", B(Mode="rlists", MaxDests=3, NVals=2, MaxList=3, RandK=6, RandOpts=6, RandN=10, Zeros="ok"))
         texts("texts:all", ["$", "{", "}", "HOST", "GRAFANA_NET_ADDR", "1", "x", "."], 4)
         texts("texts:random", toks, 12, simulate="num=100", depth=13)
     else:
-        cases("cases:pairs", B(MaxDests=3, MaxOpts=2, NVals=1), timeout=3000)
-        cases("cases:pairs2", B(Kinds={"gnet", "agg"}, MaxOpts=2, NVals=2), timeout=3000)
-        cases("cases:random", B(Kinds={"route", "gnet", "agg"}, MaxDests=3, NVals=2, MaxOpts=99),
+        cases("cases:pairs", B(MaxDests=3, MaxOpts=2, NVals=1, Zeros="all"), timeout=3000)
+        cases("cases:pairs2", B(Kinds={"gnet", "agg"}, MaxOpts=2, NVals=2, Zeros="all"), timeout=3000)
+        cases("cases:random", B(Kinds={"route", "gnet", "agg"}, MaxDests=3, NVals=2, MaxOpts=99, Zeros="ok"),
               simulate="num=8", depth=14, timeout=3000)
+        cases("cases:randomz", B(Kinds={"route", "gnet", "agg"}, MaxDests=2, NVals=2, MaxOpts=99, Zeros="all"),
+              simulate="num=4", depth=6, timeout=3000)
         # every option at every pair of positions for the booleans and one option of every other type; the rest in
         # lists of two; setter, omitter and third entry of every representative type
         lists("lists:leak", B(Mode="leak", Kinds={"route", "gnet", "agg", "rewriter"},
                               RouteTypes={"sendAllMatch", "consistentHashing"}, MaxDests=2, MaxList=3,
                               FullNames=bools | {"prefix", "substr", "flush", "concurrency", "errBackoffFactor", "not"}),
               timeout=3000)
-        lists("lists:random", B(Mode="rlists", MaxDests=3, NVals=2, MaxList=3, RandK=12, RandOpts=6, RandN=60), timeout=3000)
+        lists("lists:random", B(Mode="rlists", MaxDests=3, NVals=2, MaxList=3, RandK=12, RandOpts=6, RandN=60, Zeros="ok"),
+              timeout=3000)
         lists("lists:random2", B(Mode="rlists", Kinds={"route", "gnet"}, MaxDests=2, NVals=2, MaxList=3, RandK=12,
-                                 RandOpts=3, RandN=80), timeout=3000)
+                                 RandOpts=3, RandN=80, Zeros="all"), timeout=3000)
         texts("texts:all", ["$", "{", "}", "HOST", "GRAFANA_NET_USER_ID", "1", "x", ".", ")"], 5, timeout=3000)
         texts("texts:random", toks + ["-", "/", "^", "("], 16, simulate="num=200", depth=17, timeout=3000)
     return jobs
@@ -124,6 +137,7 @@ def _run(ctx, q, rng, env):
     if max(sizes) < 5:
         raise Machinery("vacuous generation: no entry with 5 or more options (sizes %s)" % sizes)
     check_leak_coverage(ctx, multi)
+    check_zero_coverage(ctx, lists)
 
     seen, tl = set(), []
     for t in texts:
@@ -220,6 +234,7 @@ def _run(ctx, q, rng, env):
     # 7. the binding is live: a corrupted read-back record must be flagged by the comparison
     selftest(ctx, lists, res, env)
     selftest_lists(ctx, lists, res, env)
+    selftest_zero(ctx, lists, res, env)
 
     cov = ctx.cov
     cov["evaluations"] = st["nload"] + len(texts)
@@ -237,7 +252,11 @@ def _run(ctx, q, rng, env):
                    "of positions in lists of 2 and 3), and seeded random lists (TLC Randomization, -seed).  Every case is "
                    "loaded as one TOML document, one file of init commands (both through readConfigFile) and one sequence "
                    "of admin commands; distinct_nontrivial = distinct cases with >= 1 option set + distinct token texts "
-                   "containing '$' (ambiguous nestings excluded)")
+                   "containing '$' (ambiguous nestings excluded).  Value class 'explicit zero': every numeric option of "
+                   "every entry kind (10 destination options, 8 grafanaNet options, aggregation interval / wait, rewriter "
+                   "max) = 0 as a singleton, paired with every other option of its entry (TLC enumeration) and inside "
+                   "seeded random larger subsets and lists; expected: field = 0, or the configuration refused (error "
+                   "recorded by the driver) -- never the default; the three forms must agree on acceptance")
     cov["explanation"] = ("decision-table driven differential check: Config.tla has no behaviour space, TLC evaluates the "
                           "documented option->field table (per entry, and per list of entries) and the interpolation function "
                           "on an enumerated argument space and the real loaders are compared with that, field by field; hence "
@@ -253,6 +272,10 @@ def _run(ctx, q, rng, env):
         ctx.sample(dict(text=t["raw"], expect=L.expand_expected(t["expect"], env)))
     ctx.assumptions += ["destinations point at 127.0.0.x:1 (nothing listens): the entry is read back, not exercised",
                         "values avoid spaces, quotes and the tokens of the command scanner; explicit empty strings are not generated",
+                        "which options refuse an explicit 0 and which accept it is taken from the constructors (destination.New, "
+                        "route.NewGrafanaNet, aggregator.New, rewriter.New, errOrgId0) as they are; for a refused configuration "
+                        "only the refusal (an error from InitTable / Apply) is asserted, not the error text and not what the "
+                        "entries before the refused one left in the table; negative numbers are not generated",
                         "sub and substr are never given together (the documentation does not say which wins)",
                         "one file holds several entries of ONE section kind (mixtures of [[route]], [[aggregation]], "
                         "[[rewriter]] and blacklist in one file are not generated); TOML keys are spelled as documented"]
@@ -282,6 +305,40 @@ def check_leak_coverage(ctx, multi):
     ctx.cov["leak_pairs_gnet_booleans"] = len(want)
 
 
+def check_zero_coverage(ctx, lists):
+    """the generation is not vacuous: every numeric option of every entry kind is written as an explicit 0 -- alone
+    (singleton) and inside a larger option set -- in a case that has all three forms; both verdict classes occur"""
+    want = {("route", n) for n in L.DEST_INTS} | {("gnet", n) for n in L.GNET_NUMS}
+    alone, among = set(), set()
+    nz = nrej = 0
+    params = set()
+    for l in lists:
+        full = set(l["forms"]) >= {"toml", "init", "cmd"}
+        nrej += 1 if l["reject"] else 0
+        for c in l["entries"]:
+            nz += 1 if c["zero"] else 0
+            if c["kind"] in ("agg", "rewriter") and c["zero"] and full:
+                params.update((c["kind"], f) for f in c["zero"])
+            for o in c["opts"]:
+                if o["ty"] in ("int", "float") and o["text"] in ("0", "0.0") and full:
+                    (alone if len(c["opts"]) == 1 and len(l["entries"]) == 1 else among).add((c["kind"], o["name"]))
+    miss = sorted((want - alone) | (want - among) | ({("agg", "interval"), ("agg", "wait"), ("rewriter", "max")} - params))
+    if miss:
+        raise Machinery("vacuous generation: explicit zero not generated (alone and among other options) for %s" % miss[:8])
+    if not nrej:
+        raise Machinery("vacuous generation: no case that must be refused")
+    ctx.cov["zero_options_alone_and_among"] = len(want) + 3
+    ctx.cov["entries_with_explicit_zero"] = nz
+    ctx.cov["cases_expected_refused"] = nrej
+    ctx.log("explicit zero: %d entries with a numeric option / parameter = 0, %d cases that must be refused" % (nz, nrej))
+
+
+def zero_names(entries, only=None):
+    """the fields written as an explicit 0 (of the entries `only`, default all), destination index dropped"""
+    return "+".join(sorted({strip_dest(f) for k, c in enumerate(entries) if only is None or k in only
+                            for f in c.get("zero", [])})) or "none"
+
+
 def judge(ctx, l, res, env, st, report=None):
     """compare what the real code built from list `l` with TLC's records.  `report` (a list) collects the
     violations instead of reporting them (self-test)."""
@@ -293,14 +350,35 @@ def judge(ctx, l, res, env, st, report=None):
     n = len(l["entries"])
     sfx = ":multi" if n > 1 else ""       # the entry is not the only one of its file / command sequence
     got = {}
+    accepted = {}
+    kinds = "+".join(c["kind"] for c in l["entries"])
+    optnames = " | ".join("+".join(sorted(set(o["name"] for o in c["opts"]))) or "none" for c in l["entries"])
     for form in sorted(l["texts"]):
         suffix = {"toml": "t", "init": "i", "cmd": "c"}[form]
         rec = res.get((l["id"], form))
         if rec is None:
             raise Machinery("no record for case %d form %s" % (l["id"], form))
         st["nload"] += 1
-        kinds = "+".join(c["kind"] for c in l["entries"])
-        optnames = " | ".join("+".join(sorted(set(o["name"] for o in c["opts"]))) or "none" for c in l["entries"])
+        accepted[form] = rec["ok"]
+        if form in l["reject"]:
+            # TLC: (an entry of) this configuration must be refused with an error.  What a refused file / sequence
+            # leaves behind is not documented: nothing else is compared
+            st["nreject"] = st.get("nreject", 0) + 1
+            who = [k for k, c in enumerate(l["entries"]) if form in c["reject"]]
+            rk = "+".join(sorted({l["entries"][k]["kind"] for k in who}))
+            if rec["ok"]:
+                shown = {}
+                if len(rec["entries"]) == n:
+                    shown = {f: rec["entries"][k].get(f, "<absent>") for k in who for f in l["entries"][k]["zero"]}
+                viol("zero-accepted:%s:%s:%s%s" % (rk, form, zero_names(l["entries"], who), sfx),
+                     "%s configuration (%d entr%s), %s form: an option written as an explicit 0 that must be refused with an "
+                     "error (it is never the default) was accepted; the entry shows %s" % (
+                         l["section"], n, "y" if n == 1 else "ies", form, shown),
+                     dict(case=strip(l), form=form, text=l["texts"][form], got=shown))
+            elif not rec.get("rejected") or rec.get("stage") != "load":
+                raise Machinery("case %d form %s: error before the loader ran (rendering?): %s\n%s" % (
+                    l["id"], form, rec["err"], l["texts"][form]))
+            continue
         if not rec["ok"]:
             viol("rejected:%s:%s:%s" % (kinds, form, optnames),
                  "a documented %s configuration (%d entr%s) is rejected in its %s form: %s" % (
@@ -327,13 +405,28 @@ def judge(ctx, l, res, env, st, report=None):
             bad = L.compare(exp, rec["entries"][i])
             st["nfield"] += len(exp)
             st["nentry"] += 1
+            st["nzero"] = st.get("nzero", 0) + len(c["zero"])
             for f, want, g in bad:
                 where = "" if n == 1 else "entry %d of %d (%s), " % (i + 1, n, optnames)
-                viol("field:%s:%s:%s%s" % (c["kind"], form, strip_dest(f), sfx),
-                     "%s entry, %s%s form, options {%s}: field %s is %r, documented %r" % (
-                         c["kind"], where, form, "+".join(sorted(set(o["name"] for o in c["opts"]))) or "none", f, g, want),
+                zero = f in c["zero"]     # the option of this field is written as an explicit 0
+                viol("%s:%s:%s:%s%s" % ("zero" if zero else "field", c["kind"], form, strip_dest(f), sfx),
+                     "%s entry, %s%s form, options {%s}: field %s is %r, documented %r%s" % (
+                         c["kind"], where, form, "+".join(sorted(set(o["name"] for o in c["opts"]))) or "none", f, g, want,
+                         " (written as an explicit 0: applied or refused, never the default)" if zero else ""),
                      dict(case=strip(l), entry=i + 1, form=form, text=l["texts"][form], field=f, got=g, want=want))
-    # the syntaxes agree with each other wherever the documentation gives them the same meaning
+    # the syntaxes agree on whether the configuration is accepted ...
+    if "toml" in accepted:
+        for other in ("init", "cmd"):
+            if other in accepted and accepted[other] != accepted["toml"]:
+                who = [k for k, c in enumerate(l["entries"]) if c["reject"]] or None
+                rk = "+".join(sorted({l["entries"][k]["kind"] for k in who})) if who else kinds
+                viol("accept-disagree:%s:%s:%s%s" % (rk, other, zero_names(l["entries"], who) if who else optnames, sfx),
+                     "the TOML form of a %s configuration is %s, its %s form is %s" % (
+                         l["section"], "accepted" if accepted["toml"] else "refused", other,
+                         "accepted" if accepted[other] else "refused"),
+                     dict(case=strip(l), toml=l["texts"]["toml"], other=l["texts"][other],
+                          err=res[(l["id"], "toml" if accepted[other] else other)]["err"]))
+    # ... and with each other wherever the documentation gives them the same meaning
     if "toml" in got:
         for other in ("init", "cmd"):
             if other not in got:
@@ -346,7 +439,8 @@ def judge(ctx, l, res, env, st, report=None):
                     if f in skip or f in ("key",) or f.endswith(".route"):
                         continue
                     if gt[f] != go.get(f, "<absent>"):
-                        viol("disagree:%s:%s:%s%s" % (c["kind"], other, strip_dest(f), sfx),
+                        viol("%s:%s:%s:%s%s" % ("zero-disagree" if f in c["zero"] else "disagree", c["kind"], other,
+                                                strip_dest(f), sfx),
                              "TOML section and %s form of the same %s entry%s differ in field %s: %r vs %r" % (
                                  other, c["kind"], "" if n == 1 else " (entry %d of %d)" % (i + 1, n), f, gt[f], go.get(f)),
                              dict(case=strip(l), entry=i + 1, toml=l["texts"]["toml"], other=l["texts"][other]))
@@ -354,8 +448,9 @@ def judge(ctx, l, res, env, st, report=None):
 
 def strip(l):
     return dict(section=l["section"], origin=l.get("origin", "single"),
+                reject=sorted(l["reject"]),
                 entries=[dict(kind=c["kind"], v1=c["v1"], v2=c["v2"], v3=c["v3"], nd=c["nd"], opts=c["opts"],
-                              params=c["params"]) for c in l["entries"]])
+                              params=c["params"], zero=c["zero"]) for c in l["entries"]])
 
 
 def strip_dest(f):
@@ -446,3 +541,46 @@ def selftest_lists(ctx, lists, res, env):
         ctx.note("binding self-test (lists) skipped: no clean list with a grafanaNet boolean set early and left out later")
         return
     raise Machinery("binding self-test (lists): no clean list with a grafanaNet boolean set early and left out later")
+
+
+
+def selftest_zero(ctx, lists, res, env):
+    """the zero verdicts are live: a read-back record that shows the default where an explicit 0 was written, and an
+    'accepted' record where TLC says 'refused', must both be flagged"""
+    defaults = {"connbuf": 30000, "spoolbuf": 10000, "spoolsyncevery": 10000, "spoolsleep_us": 500, "unspoolsleep_us": 10,
+                "spoolmaxbytesperfile": 209715200}
+    done = set()
+    for l in lists:
+        if len(l["entries"]) != 1 or l["entries"][0]["kind"] != "route" or "cmd" not in l["texts"]:
+            continue
+        c = l["entries"][0]
+        ids = {f: res[(l["id"], f)] for f in l["texts"]}
+        if "field" not in done and not l["reject"] and c["zero"] and clean(ctx, l, res, env):
+            f = sorted(c["zero"])[0]
+            if f.split(".", 1)[-1] not in defaults:
+                continue
+            fake = json.loads(json.dumps(ids["cmd"]))
+            fake["entries"][0][f] = defaults[f.split(".", 1)[-1]]
+            rep = []
+            judge(ctx, l, {**{(l["id"], k): v for k, v in ids.items()}, (l["id"], "cmd"): fake}, env,
+                  dict(nload=0, nfield=0, nentry=0), report=rep)
+            if "zero:route:cmd:%s" % strip_dest(f) not in rep:
+                raise Machinery("binding self-test (zero): a default in place of an explicit 0 (%s) is not flagged (%s)" % (f, rep))
+            done.add("field")
+        if "accept" not in done and l["reject"] and all(not v["ok"] for v in ids.values()):
+            fake = json.loads(json.dumps(ids["toml"]))
+            fake.update(ok=True, err="", rejected=False)
+            rep = []
+            judge(ctx, l, {**{(l["id"], k): v for k, v in ids.items()}, (l["id"], "toml"): fake}, env,
+                  dict(nload=0, nfield=0, nentry=0), report=rep)
+            if not any(x.startswith("zero-accepted:route:toml:") for x in rep) or \
+                    not any(x.startswith("accept-disagree:route:") for x in rep):
+                raise Machinery("binding self-test (zero): an accepted configuration that must be refused is not flagged (%s)" % rep)
+            done.add("accept")
+        if len(done) == 2:
+            ctx.log("binding self-test (zero): a default in place of an explicit 0 and a wrongly accepted entry are flagged")
+            return
+    if ctx.violations or ctx.known_hits:
+        ctx.note("binding self-test (zero) incomplete (%s): no clean carbon route case" % sorted(done))
+        return
+    raise Machinery("binding self-test (zero): no suitable clean case (%s)" % sorted(done))
